@@ -120,8 +120,10 @@ func (c *checker) one(a netip.Addr, evals, nontriv *int64) {
 func TestC06(t *testing.T) {
 	r := mon.Start("C06", "lists")
 	ls, sp := docLists(t)
-	if len(ls) != 14 || len(sp) != 35 {
-		t.Fatalf("harness: expected 9+5 and 16+19 documented networks, parsed %d and %d", len(ls), len(sp))
+	// the documented lists are the reference, whatever they hold today (the pinned tree documents 9+5 and 16+19
+	// networks); fewer than that means the doc comments could not be parsed
+	if len(ls) < 14 || len(sp) < 35 {
+		t.Fatalf("harness: expected at least 9+5 and 16+19 documented networks, parsed %d and %d", len(ls), len(sp))
 	}
 	r.Note("documented_networks", map[string]int{"IsLocallyServed": len(ls), "IsSpecialPurpose": len(sp)})
 	c := &checker{r, ls, sp}
